@@ -1,0 +1,61 @@
+//go:build verif
+
+package s2
+
+// Read-only wrappers used by the model-based checks of the intersection point
+// (C16) and of the edge distance / projection / interpolation primitives (C17).
+// Add-only: no existing line of the package is touched.
+
+import "github.com/golang/geo/s1"
+
+// VerifIntersectionStable exports intersectionStable (result not sign-corrected).
+func VerifIntersectionStable(a0, a1, b0, b1 Point) (Point, bool) {
+	return intersectionStable(a0, a1, b0, b1)
+}
+
+// VerifIntersectionExact exports intersectionExact (result not sign-corrected).
+func VerifIntersectionExact(a0, a1, b0, b1 Point) Point {
+	return intersectionExact(a0, a1, b0, b1)
+}
+
+// VerifCompareEdges exports compareEdges.
+func VerifCompareEdges(a0, a1, b0, b1 Point) bool { return compareEdges(a0, a1, b0, b1) }
+
+// VerifIntersectionError is the documented bound on the error of Intersection.
+func VerifIntersectionError() s1.Angle { return intersectionError }
+
+// VerifIntersectionExactError is the directional error documented in
+// intersectionExact for its final rounding (2 * dblError).
+func VerifIntersectionExactError() s1.Angle { return s1.Angle(2 * dblError) }
+
+// VerifDblEpsilon and VerifDblError export the package's rounding constants.
+func VerifDblEpsilon() float64 { return dblEpsilon }
+
+// VerifDblError exports dblError.
+func VerifDblError() float64 { return dblError }
+
+// VerifStableAngle exports Point.stableAngle.
+func VerifStableAngle(p, o Point) s1.Angle { return p.stableAngle(o) }
+
+// VerifMinUpdateDistanceMaxError exports minUpdateDistanceMaxError.
+func VerifMinUpdateDistanceMaxError(d s1.ChordAngle) float64 { return minUpdateDistanceMaxError(d) }
+
+// VerifMinUpdateInteriorDistanceMaxError exports minUpdateInteriorDistanceMaxError.
+func VerifMinUpdateInteriorDistanceMaxError(d s1.ChordAngle) float64 {
+	return minUpdateInteriorDistanceMaxError(d)
+}
+
+// VerifUpdateMinDistance exports updateMinDistance (with the alwaysUpdate flag).
+func VerifUpdateMinDistance(x, a, b Point, minDist s1.ChordAngle, alwaysUpdate bool) (s1.ChordAngle, bool) {
+	return updateMinDistance(x, a, b, minDist, alwaysUpdate)
+}
+
+// VerifUpdateEdgePairMinDistance exports updateEdgePairMinDistance.
+func VerifUpdateEdgePairMinDistance(a0, a1, b0, b1 Point, minDist s1.ChordAngle) (s1.ChordAngle, bool) {
+	return updateEdgePairMinDistance(a0, a1, b0, b1, minDist)
+}
+
+// VerifUpdateEdgePairMaxDistance exports updateEdgePairMaxDistance.
+func VerifUpdateEdgePairMaxDistance(a0, a1, b0, b1 Point, maxDist s1.ChordAngle) (s1.ChordAngle, bool) {
+	return updateEdgePairMaxDistance(a0, a1, b0, b1, maxDist)
+}
